@@ -17,6 +17,7 @@ gv2 := {|acc, x| acc.g2(x, "t")}
 fv := {|x| x.f}
 gv := {|acc, x| acc.g(x)}
 unacc := {|r| r.l if r != nil}
+nn := Nil.bear({reason: "none"}).new
 `
 
 // behaviours of the callee at one element
@@ -27,7 +28,14 @@ const (
 	bNone  = "nil-element" // the element itself is nil
 )
 
+// c04nilAlt: spell nil elements at alternating positions as a nil descendant (`Nil.bear({…}).new`, which
+// is nil for the language: == nil, nil? true) instead of the literal.
+var c04nilAlt = 0
+
 func c04elem(k int, beh string) string {
+	if beh == bNone && (k+c04nilAlt)%2 == 1 {
+		return "nn"
+	}
 	switch beh {
 	case bVal:
 		return fmt.Sprintf(`{id: %d, f: m{"C%d".p; %d}, f2: m{|t| "C%d".p; [%d, t]}}`, k, k, 100+k, k, 100+k)
@@ -165,7 +173,9 @@ func runC04(w *fw.W) {
 		rec(nil, n)
 	}
 	adds := []string{"", "&", "~", "="}
-	recvKinds := []string{"arr", "iter"}
+	// itervar: the receiver is a variable holding an iterator that an earlier chain already went through
+	// (a chain works on the elements the receiver's iterator yields, it does not consume the receiver)
+	recvKinds := []string{"arr", "iter", "itervar"}
 	chunk := 12
 	for _, rk := range recvKinds {
 		for start := 0; start < len(vectors); start += chunk {
@@ -184,7 +194,8 @@ func runC04(w *fw.W) {
 			var dks []string
 			cells := 0
 			var sample string
-			for _, behs := range vectors[start:end] {
+			for vi, behs := range vectors[start:end] {
+				c04nilAlt = vi
 				// elements and their Inspect strings
 				setup := c04prelude
 				var names []string
@@ -196,6 +207,11 @@ func runC04(w *fw.W) {
 				if rk == "iter" {
 					setup += "els := " + recv + "\n"
 					recv = fmt.Sprintf("<{|i| yield els[i] if i < %d; recur(i + 1)}>.new(0)", len(behs))
+				}
+				if rk == "itervar" {
+					setup += "els := " + recv + "\n"
+					setup += fmt.Sprintf("it := <{|i| yield els[i] if i < %d; recur(i + 1)}>.new(0)\nwarm := [it@{|x| 1}, it$(0){|acc, x| acc + 1}]\n", len(behs))
+					recv = "it"
 				}
 				einsp := map[string]string{}
 				for k := range behs {
@@ -386,7 +402,8 @@ func runC04(w *fw.W) {
 		var vs violSet
 		var dks []string
 		cells := 0
-		for _, b := range []string{bVal, bNil, bRaise, bNone} {
+		for bi, b := range []string{bVal, bNil, bRaise, bNone, bNone} {
+			c04nilAlt = bi % 2
 			setup := c04prelude + "e0 := " + c04elem(0, b) + "\n"
 			eo := ip.Run(setup+"e0", interp.Options{})
 			for _, add := range adds {
